@@ -173,8 +173,24 @@ def run_c_functions(funcs, tier, jobs=None, opts=None):
             work.append((f, g, tier, opts))
     jobs = jobs or min(16, max(1, len(work)))
     ctx = mp.get_context("fork")
-    with ctx.Pool(jobs) as pool:
-        res = pool.map(_verify_c, work, chunksize=1)
+    limit = 900 if tier == "quick" else 3600
+    pool = ctx.Pool(jobs)
+    res = []
+    try:
+        asyncs = [pool.apply_async(_verify_c, (w,)) for w in work]
+        t_end = time.time() + limit
+        for w, a in zip(work, asyncs):
+            try:
+                res.append(a.get(timeout=max(1.0, t_end - time.time())))
+            except mp.TimeoutError:
+                res.append({"file": w[0], "function": w[1], "obligations": [], "info": None, "assumptions": [],
+                            "error": "no verdict within %d s (solver or generator did not return)" % limit,
+                            "error_kind": "timeout", "wall_s": limit})
+            except Exception as e:       # a worker died
+                res.append({"file": w[0], "function": w[1], "obligations": [], "info": None, "assumptions": [],
+                            "error": "checker failure: worker died: %s" % e, "error_kind": "crash", "wall_s": 0})
+    finally:
+        pool.terminate()
     for w, r in zip(work, res):
         sc = (w[3] or {}).get("scenario")
         if sc:
